@@ -408,6 +408,9 @@ func classes() []class {
 		{"search.unknowndataset", false, func(e *env, ctx context.Context) error {
 			return drainSearch(sr(e).Search(ctx, &pb.SearchRequest{DatasetId: id16(9), Query: vec(3, 1), K: 3}))
 		}},
+		{"searchparts.unknowndataset", false, func(e *env, ctx context.Context) error {
+			return drainParts(sr(e).SearchPartitions(ctx, &pb.SearchPartitionsRequest{DatasetId: id16(9), PartitionIds: [][]byte{e.parts[0]}, Query: vec(3, 1), K: 3}))
+		}},
 		{"searchparts.foreign", false, func(e *env, ctx context.Context) error {
 			return drainParts(sr(e).SearchPartitions(ctx, &pb.SearchPartitionsRequest{DatasetId: e.ds, PartitionIds: [][]byte{id16(9)}, Query: vec(3, 1), K: 3}))
 		}},
@@ -561,6 +564,15 @@ func main() {
 			"probe": "", "restart": 1, "restartwhy": "", "replayprobe": "", "setup": ""}
 		if c.valid {
 			ev["valid"] = 1
+		}
+		// requests that address something that is not there: a search over it must fail loudly, an empty
+		// success would silently drop a partition's contribution from somebody's result
+		ev["musterr"] = 0
+		for _, n := range []string{"search.unknowndataset", "searchparts.unknowndataset", "searchparts.foreign", "searchparts.shortpartitionid",
+			"search.dim", "searchparts.dim", "search.emptyquery", "searchparts.emptyquery"} {
+			if n == name {
+				ev["musterr"] = 1
+			}
 		}
 		s := &server{bin: bin, dir: fmt.Sprintf("%s/c%d", work, ci), port: freePort()}
 		os.MkdirAll(s.dir, 0755)
